@@ -442,8 +442,14 @@ def site_obligations(path, woven_text, contracted_names):
             kind = "unwrap"
         elif t.text in contracted_names:
             p = prev_sig(toks, k)
-            if p >= 0 and toks[p].text in ("::", "."):
+            pp = prev_sig(toks, p) if p >= 0 else -1
+            # only calls on the evaluator itself: `Self::name(` / `self.name(` (JobState has methods of
+            # the same names without preconditions)
+            if p >= 0 and pp >= 0 and ((toks[p].text == "::" and toks[pp].text == "Self")
+                                       or (toks[p].text == "." and toks[pp].text == "self")):
                 kind = "call:" + t.text
+        elif t.text.startswith("verif_macro_") and t.text[len("verif_macro_"):] in contracted_names:
+            kind = "call:" + t.text[len("verif_macro_"):]
         if kind is None:
             continue
         counts[kind] = counts.get(kind, 0) + 1
@@ -634,10 +640,13 @@ def build(repo, contracts_dir, out_dir, vacuity=False, only=None):
             base = W.line
             sobs = site_obligations(p, woven, contracted_names)
             ghost_ranges = [(base + a, base + b) for (a, b) in weave_function.last_ghost]
+            seen_ids = {}
             for o in obs + sobs:
                 o["line_start"] = base + o.pop("rel_line_start")
                 o["line_end"] = base + o.pop("rel_line_end")
-                o["id"] = "%s/%s%s:%s" % (p, o["kind"], ("#%d" % o["loop"]) if "loop" in o else "", o["name"])
+                oid = "%s/%s%s:%s" % (p, o["kind"], ("#%d" % o["loop"]) if "loop" in o else "", o["name"])
+                seen_ids[oid] = seen_ids.get(oid, 0) + 1
+                o["id"] = oid if seen_ids[oid] == 1 else "%s~%d" % (oid, seen_ids[oid])
                 W.obligations.append(o)
             start = W.line
             W.emit(woven + "\n\n")
